@@ -164,7 +164,7 @@ func genValue(r *vh.Rng, st *jstats, depth, maxDepth int) *jval {
 	if depth > st.depth {
 		st.depth = depth
 	}
-	leaf := depth >= maxDepth || r.Chance(0.35)
+	leaf := depth >= maxDepth || r.Chance(0.35) && (depth > 0 || r.Chance(0.3))
 	if leaf {
 		switch r.Pick(8) {
 		case 0:
@@ -669,7 +669,7 @@ func runJSON(sum *vh.Summary, cw *vh.CaseWriter, text string, gen *jval, verbose
 
 func genJSONCase(r *vh.Rng, sum *vh.Summary, cw *vh.CaseWriter) {
 	st := &jstats{}
-	maxDepth := pickOf(r, 0, 1, 2, 3, 4, 6)
+	maxDepth := pickOf(r, 0, 1, 1, 2, 2, 3, 3, 4, 6)
 	v := genValue(r, st, 0, maxDepth)
 	var sb strings.Builder
 	ws(r, &sb)
